@@ -406,3 +406,486 @@ def checksum_feed(ctx):
                                       'CRC/SHA over exactly buf[..n]: corruption in them is no longer detected')
     if n_inst == 0:
         ctx.anchor_missing('Ok(n) hand-out in the container readers')
+
+
+# --------------------------------------------------------------------------- TABLE-INVERSE (C02)
+
+def arm_regions(f, sb):
+    """{arm value (int) or 'else': set of blocks exclusively reached through that arm}."""
+    t = f.blocks[sb]['term']
+    out = {}
+    targets = [(int(a[0]), a[1]) for a in t['arms']] + [('else', t['otherwise'])]
+    for v, tgt in targets:
+        region = {b for b in f.reach_from([tgt]) if f.dominates(tgt, b)}
+        out[v] = region
+    return out
+
+
+def switches_on(f, prov, pred):
+    """Switch blocks whose scrutinee satisfies pred(kind, place/expr)."""
+    out = []
+    for sb in f.reachable:
+        t = f.blocks[sb]['term']
+        if t['k'] != 'switch':
+            continue
+        dl = op_local(t['discr'])
+        p = None
+        if dl is not None:
+            dd = f.whole_defs(dl)
+            if len(dd) == 1 and dd[0][2] == 'assign' and dd[0][3]['rv']['r'] == 'discr':
+                p = ('discr', dd[0][3]['rv']['p'])
+        if p is None:
+            pl = op_place(t['discr'])
+            if pl is not None:
+                p = ('value', pl)
+        if p and pred(p[0], p[1]):
+            out.append(sb)
+    return out
+
+
+def region_consts(f, region, ty_prefix=('u', 'i')):
+    """integer constants assigned to whole locals inside a region: {local: const}."""
+    out = {}
+    for b in region:
+        for s in f.blocks[b]['stmts']:
+            if s['k'] == 'assign' and not s['lhs']['p'] and s['rv']['r'] == 'use':
+                k = s['rv']['o'].get('k')
+                if k is not None and isinstance(k.get('v'), int) and k['ty'].startswith(ty_prefix) and k['ty'] != '()':
+                    out[s['lhs']['l']] = k['v']
+    return out
+
+
+def region_variants(f, region, adt):
+    out = []
+    for b in region:
+        for s in f.blocks[b]['stmts']:
+            if s['k'] == 'assign' and s['rv']['r'] == 'agg' and s['rv'].get('kind') == 'adt' and last_seg(s['rv']['adt']) == adt:
+                out.append(s['rv']['variant_name'])
+    return out
+
+
+def region_calls(f, region):
+    out = []
+    for b in region:
+        t = f.blocks[b]['term']
+        if t['k'] == 'call':
+            c = callee_of(t)
+            if c:
+                out.append(strip_generics(c['path']))
+    return out
+
+
+def variant_table(F, adt):
+    a = F.adt(adt)
+    if a is None:
+        return None
+    return {v['name']: (v['idx'], int(v['discr']) if v['discr'] is not None else v['idx']) for v in a['variants']}
+
+
+@rule('TABLE-INVERSE', ['C02', 'C03'], floor=30)
+def table_inverse(ctx):
+    """Writer and reader tables are inverse: XZ filter ids (write_block_header <-> TryFrom<u64> for
+    FilterType), check ids (CheckType discriminants <-> from_byte), check sizes (writer size table
+    <-> reader buffer lengths), filter constructor per FilterType variant (XZWriter <-> XZReader),
+    delta property (-1 <-> +1), filter chain order (both reversed)."""
+    F = ctx.facts
+    ft = variant_table(F, 'FilterType')
+    ct = variant_table(F, 'CheckType')
+    if ft is None or ct is None:
+        return ctx.anchor_missing('FilterType / CheckType enums')
+    ft_by_discr = {d: n for n, (i, d) in ft.items()}
+    ct_by_discr = {d: n for n, (i, d) in ct.items()}
+    # ---- (1) filter ids
+    w_ids = {}
+    wfn = None
+    for f in methods_of(F, 'XZWriter'):
+        prov = Prov(f)
+        for sb in switches_on(f, prov, lambda k, p: k == 'discr' and p['ty'].endswith('FilterType')):
+            regs = arm_regions(f, sb)
+            table = {}
+            locals_ = None
+            for v, region in regs.items():
+                if v == 'else':
+                    continue
+                cs = region_consts(f, region)
+                # the id local: assigned in every arm
+                table[v] = cs
+            common = None
+            for v, cs in table.items():
+                common = set(cs) if common is None else common & set(cs)
+            if common and len(table) >= 8:
+                idl = sorted(common)[0]
+                cand = {ft_by_discr.get(v, v): cs[idl] for v, cs in table.items()}
+                if len(set(cand.values())) == len(cand):
+                    w_ids = cand
+                    wfn = (f, sb)
+    r_ids = {}
+    rfn = None
+    for f in F.fns:
+        if f.impl and last_seg(f.impl.get('trait')) == 'TryFrom' and f.self_adt and last_seg(f.self_adt) == 'FilterType':
+            prov = Prov(f)
+            for sb in switches_on(f, prov, lambda k, p: k == 'value'):
+                for v, region in arm_regions(f, sb).items():
+                    if v == 'else':
+                        continue
+                    vs = region_variants(f, region, 'FilterType')
+                    if vs:
+                        r_ids[v] = vs[0]
+                rfn = (f, sb)
+    if not w_ids or not r_ids:
+        ctx.anchor_missing('XZ filter id tables (writer %d rows, reader %d rows)' % (len(w_ids), len(r_ids)))
+    else:
+        for name in sorted(ft):
+            key = 'filter-id:%s' % name
+            wid = w_ids.get(name)
+            back = [c for c, n in r_ids.items() if n == name]
+            if wid is None:
+                ctx.violation(key, wfn[0].loc(wfn[1]), 'writer has no id for filter %s' % name)
+            elif back != [wid]:
+                ctx.violation(key, wfn[0].loc(wfn[1]), 'writer emits id 0x%02X for %s but the reader maps %s to it: a block written '
+                              'with this filter is decoded with another filter or rejected' % (
+                                  wid, name, ['0x%02X' % b for b in back] or 'no id'))
+            else:
+                ctx.ok(key, wfn[0].loc(wfn[1]), 'id 0x%02X in both directions' % wid)
+    # ---- (2) check ids
+    for f in F.fns:
+        if f.self_adt and last_seg(f.self_adt) == 'CheckType' and f.d.get('output', '').startswith('std::result::Result<xz::CheckType') and f.kind != 'closure':
+            prov = Prov(f)
+            for sb in switches_on(f, prov, lambda k, p: k == 'value' and p['ty'] == 'u8'):
+                for v, region in arm_regions(f, sb).items():
+                    if v == 'else':
+                        continue
+                    vs = region_variants(f, region, 'CheckType')
+                    if not vs:
+                        continue
+                    key = 'check-id:%s' % vs[0]
+                    if ct.get(vs[0], (None, None))[1] == v:
+                        ctx.ok(key, f.loc(sb), 'byte 0x%02X <-> discriminant of %s (written as `check_type as u8`)' % (v, vs[0]))
+                    else:
+                        ctx.violation(key, f.loc(sb), 'reader maps byte 0x%02X to CheckType::%s whose discriminant (the byte the writer '
+                                      'emits) is 0x%02X' % (v, vs[0], ct.get(vs[0], (0, -1))[1]))
+    # ---- (3) check sizes
+    wsz = {}
+    for f in methods_of(F, 'XZWriter'):
+        if f.d.get('output') != 'u64':
+            continue
+        prov = Prov(f)
+        for sb in switches_on(f, prov, lambda k, p: k == 'discr' and p['ty'].endswith('CheckType')):
+            for v, region in arm_regions(f, sb).items():
+                if v == 'else':
+                    continue
+                for b in region:
+                    for s in f.blocks[b]['stmts']:
+                        if s['k'] == 'assign' and s['lhs']['l'] == 0 and s['rv']['r'] == 'use' and s['rv']['o'].get('k'):
+                            wsz[ct_by_discr.get(v, v)] = (s['rv']['o']['k']['v'], f, sb)
+    rsz = {}
+    cc = variant_table(F, 'ChecksumCalculator')
+    for f in methods_of(F, 'XZReader'):
+        prov = Prov(f)
+        for sb in switches_on(f, prov, lambda k, p: k == 'discr' and p['ty'].endswith('ChecksumCalculator')):
+            byidx = {i: n for n, (i, d) in (cc or {}).items()}
+            for v, region in arm_regions(f, sb).items():
+                if v == 'else':
+                    continue
+                n = 0
+                for b in region:
+                    for s in f.blocks[b]['stmts']:
+                        if s['k'] == 'assign' and s['rv']['r'] == 'repeat' and isinstance(s['rv'].get('n'), int):
+                            n = max(n, s['rv']['n'])
+                rsz[byidx.get(v, v)] = (n, f, sb)
+    if len(wsz) < 4 or len(rsz) < 4:
+        ctx.anchor_missing('check size tables (writer %d, reader %d rows)' % (len(wsz), len(rsz)))
+    else:
+        for name in sorted(wsz):
+            key = 'check-size:%s' % name
+            w = wsz[name][0]
+            r = rsz.get(name, (None,))[0]
+            if w == r:
+                ctx.ok(key, wsz[name][1].loc(wsz[name][2]), '%s: %d bytes written and read' % (name, w))
+            else:
+                ctx.violation(key, wsz[name][1].loc(wsz[name][2]), 'check size of %s: writer accounts %s bytes, reader reads %s' % (name, w, r))
+    # ---- (4) filter constructors
+    def ctor_table(adt):
+        best = {}
+        where = None
+        for f in methods_of(F, adt):
+            prov = Prov(f)
+            for sb in switches_on(f, prov, lambda k, p: k == 'discr' and p['ty'].endswith('FilterType')):
+                tab = {}
+                for v, region in arm_regions(f, sb).items():
+                    if v == 'else':
+                        continue
+                    cs = [c for c in region_calls(f, region) if '::new' in c and any(x in c for x in ('BCJ', 'Delta', 'LZMA2'))]
+                    if cs:
+                        nm = cs[0].split('::')
+                        tab[ft_by_discr.get(v, v)] = '%s::%s' % (nm[-2].replace('Writer', '').replace('Reader', ''), nm[-1])
+                if len(tab) > len(best):
+                    best = tab
+                    where = (f, sb)
+        return best, where
+    wt, ww = ctor_table('XZWriter')
+    rt, rw = ctor_table('XZReader')
+    if len(wt) < 8 or len(rt) < 8:
+        ctx.anchor_missing('filter constructor tables (writer %d, reader %d rows)' % (len(wt), len(rt)))
+    else:
+        for name in sorted(ft):
+            key = 'filter-ctor:%s' % name
+            if wt.get(name) == rt.get(name) and wt.get(name):
+                ctx.ok(key, ww[0].loc(ww[1]), '%s on both sides' % wt[name])
+            else:
+                ctx.violation(key, ww[0].loc(ww[1]), 'FilterType::%s builds %s in the writer but %s in the reader' % (name, wt.get(name), rt.get(name)))
+    # ---- (5) delta property -1 / +1 ; (6) chain order
+    wd = rd = None
+    for f in methods_of(F, 'XZWriter'):
+        prov = Prov(f)
+        for bi, b in enumerate(f.blocks):
+            for si, s in enumerate(b['stmts']):
+                if s['k'] == 'assign' and s['rv']['r'] == 'cast' and s['rv']['ty'] == 'u8':
+                    e = prov.operand(s['rv']['o'], 0, '%d:%d' % (bi, si))
+                    for x in expr_walk(e):
+                        if x[0] == 'bin' and x[1].startswith('Sub') and x[3][0] == 'const' and x[3][2] == 1 and \
+                                any(y[0] == 'field' and y[2] == 'property' for y in expr_walk(x[2])):
+                            wd = (f, bi)
+    for f in F.fns:
+        if f.self_adt and last_seg(f.self_adt) == 'BlockHeader':
+            prov = Prov(f)
+            for bi, b in enumerate(f.blocks):
+                for si, s in enumerate(b['stmts']):
+                    if s['k'] == 'assign' and s['rv']['r'] == 'bin' and s['rv']['op'].startswith('Add') and const_val(s['rv']['b']) == 1:
+                        e = prov.operand(s['rv']['a'], 0, '%d:%d' % (bi, si))
+                        if e[0] == 'cast' and e[1] == 'u32' and any(x[0] == 'index' or (x[0] == 'call' and x[1].endswith('Index::index')) for x in expr_walk(e)):
+                            rd = (f, bi)
+    if wd and rd:
+        ctx.ok('delta-property', wd[0].loc(wd[1]), 'writer stores distance - 1, reader adds 1')
+    else:
+        ctx.violation('delta-property', '-', 'delta distance encoding is not `-1` in the writer and `+1` in the reader (writer %s, reader %s)' % (bool(wd), bool(rd)))
+    revs = []
+    for adt in ('XZWriter', 'XZReader'):
+        for f in methods_of(F, adt) + [g for g in F.fns if g.kind == 'closure']:
+            pass
+    for adt, (tab, where) in (('XZWriter', (wt, ww)), ('XZReader', (rt, rw))):
+        if where is None:
+            continue
+        f = where[0]
+        has_rev = any(c.name == 'rev' for _, _, c in f.calls())
+        key = '%s:filter-chain-reversed' % adt
+        if has_rev:
+            ctx.ok(key, f.loc(where[1]), 'filter chain built in reverse order of the header')
+        else:
+            ctx.violation(key, f.loc(where[1]), 'filter chain is not built in reverse header order on this side only')
+
+
+
+# --------------------------------------------------------------------------- SPEC-CONST (C03)
+
+# Published format constants, one citation per row.
+SPEC = {
+    'xz_magic': (0xFD, 0x37, 0x7A, 0x58, 0x5A, 0x00),      # xz-file-format 1.2.1, 2.1.1.1 Header Magic Bytes
+    'xz_footer': (0x59, 0x5A),                              # xz-file-format 2.1.2.4 Footer Magic Bytes
+    'lzip_magic': (0x4C, 0x5A, 0x49, 0x50),                 # lzip manual, File format: "LZIP"
+    'lzip_version': 1,                                      # lzip manual: VN = 1
+    'lzip_dict_min': 4096, 'lzip_dict_max': 512 << 20,      # lzip manual: 4 KiB .. 512 MiB
+    # xz-file-format 5.3 / 5.4: filter ids
+    'filter_ids': {0x03: 'Delta::new', 0x04: 'BCJ::new_x86', 0x05: 'BCJ::new_ppc', 0x06: 'BCJ::new_ia64', 0x07: 'BCJ::new_arm',
+                   0x08: 'BCJ::new_arm_thumb', 0x09: 'BCJ::new_sparc', 0x0A: 'BCJ::new_arm64', 0x0B: 'BCJ::new_riscv',
+                   0x21: 'LZMA2::new'},
+    # xz-file-format 2.1.1.2 Stream Flags: check id -> size
+    'check_sizes': {0x00: 0, 0x01: 4, 0x04: 8, 0x0A: 32},
+    'lzma2_uncompressed_max': 1 << 21, 'lzma2_compressed_max': 1 << 16,   # xz-file-format 5.3.1 / LZMA2 chunk header
+}
+
+
+def const_arrays_written(F, adt):
+    out = []
+    for f in methods_of(F, adt):
+        prov = None
+        for bi, t, c in f.calls():
+            if c.name in ('write_all',) and len(t['args']) > 1:
+                prov = prov or Prov(f)
+                cb = const_bytes(prov.operand(t['args'][1], 0, '%d:T' % bi))
+                if cb is not None:
+                    out.append((f, bi, cb))
+    return out
+
+
+def const_arrays_compared(F, pred):
+    out = []
+    for f in F.fns:
+        if not pred(f):
+            continue
+        prov = None
+        for bi, t, c in f.calls():
+            if c.trait and last_seg(c.trait) == 'PartialEq' and c.name in ('eq', 'ne'):
+                prov = prov or Prov(f)
+                for a in t['args'][:2]:
+                    cb = const_bytes(prov.operand(a, 0, '%d:T' % bi))
+                    if cb is not None:
+                        out.append((f, bi, cb))
+    return out
+
+
+@rule('SPEC-CONST', ['C03'], floor=20)
+def spec_const(ctx):
+    """Every format constant either side uses equals the published specification: XZ header/footer
+    magic, LZIP magic/version/dictionary range, XZ filter ids and check ids/sizes (by role: id ->
+    public filter constructor), LZMA2 chunk size limits, the .lzma properties formula."""
+    F = ctx.facts
+    # XZ magic (writer)
+    wa = const_arrays_written(F, 'XZWriter')
+    for nm, ln in (('xz_magic', 6), ('xz_footer', 2)):
+        got = [(f, bi, cb) for f, bi, cb in wa if len(cb) == ln and any(cb)]
+        key = 'XZWriter:%s' % nm
+        if not got:
+            ctx.violation(key, '-', 'XZ writer writes no %d-byte constant (cannot locate %s)' % (ln, nm))
+        for f, bi, cb in got:
+            if tuple(cb) == SPEC[nm]:
+                ctx.ok(key, f.loc(bi), 'writes %s' % ' '.join('%02X' % b for b in cb))
+            else:
+                ctx.violation(key, f.loc(bi), 'writes %s where the specification requires %s' % (
+                    ' '.join('%02X' % b for b in cb), ' '.join('%02X' % b for b in SPEC[nm])))
+    ra = const_arrays_compared(F, lambda f: f.file == 'src/xz/reader.rs')
+    for nm, ln in (('xz_magic', 6), ('xz_footer', 2)):
+        got = [(f, bi, cb) for f, bi, cb in ra if len(cb) == ln and any(cb)]
+        key = 'XZReader:%s' % nm
+        if not got:
+            ctx.violation(key, '-', 'XZ reader compares no %d-byte constant (cannot locate %s)' % (ln, nm))
+        bad = [(f, bi, cb) for f, bi, cb in got if tuple(cb) != SPEC[nm]]
+        if got and not bad:
+            ctx.ok(key, got[0][0].loc(got[0][1]), '%d comparison(s) against %s' % (len(got), ' '.join('%02X' % b for b in SPEC[nm])))
+        for f, bi, cb in bad:
+            ctx.violation(key, f.loc(bi), 'compares against %s, specification says %s' % (cb, SPEC[nm]))
+    # LZIP
+    la = const_arrays_written(F, 'LZIPWriter')
+    got = [(f, bi, cb) for f, bi, cb in la if len(cb) == 4]
+    if got and all(tuple(cb) == SPEC['lzip_magic'] for _, _, cb in got):
+        ctx.ok('LZIPWriter:magic', got[0][0].loc(got[0][1]), 'writes "LZIP"')
+    else:
+        ctx.violation('LZIPWriter:magic', '-', 'LZIP writer does not write the magic 4C 5A 49 50 (%s)' % [cb for _, _, cb in got])
+    ver = [(f, bi, cb) for f, bi, cb in la if len(cb) == 1]
+    if ver and all(cb[0] == SPEC['lzip_version'] for _, _, cb in ver):
+        ctx.ok('LZIPWriter:version', ver[0][0].loc(ver[0][1]), 'writes version 1')
+    else:
+        ctx.violation('LZIPWriter:version', '-', 'LZIP writer version byte is not 1 (%s)' % [cb for _, _, cb in ver])
+    lc = const_arrays_compared(F, lambda f: f.file in ('src/lzip.rs', 'src/lzip/reader.rs', 'src/lzip/reader_mt.rs'))
+    got = [(f, bi, cb) for f, bi, cb in lc if len(cb) == 4]
+    if got and all(tuple(cb) == SPEC['lzip_magic'] for _, _, cb in got):
+        ctx.ok('LZIPReader:magic', got[0][0].loc(got[0][1]), '%d comparison(s) against "LZIP"' % len(got))
+    else:
+        ctx.violation('LZIPReader:magic', '-', 'LZIP reader magic comparison is not against 4C 5A 49 50 (%s)' % [cb for _, _, cb in got])
+    for cname, sk in (('MIN_DICT_SIZE', 'lzip_dict_min'), ('MAX_DICT_SIZE', 'lzip_dict_max')):
+        c = [v for p, v in F.consts.items() if p.startswith('lzip::') and p.endswith(cname)]
+        key = 'lzip:%s' % sk
+        if c and c[0]['val'] == SPEC[sk]:
+            ctx.ok(key, c[0]['span'], '%s = %d' % (cname, c[0]['val']), nontrivial=False)
+        else:
+            ctx.violation(key, '-', 'LZIP dictionary bound %s is %s, specification says %d' % (cname, c[0]['val'] if c else None, SPEC[sk]))
+    # filter ids by role: id -> variant (reader table) -> constructor
+    ft = variant_table(F, 'FilterType')
+    ft_by_discr = {d: n for n, (i, d) in (ft or {}).items()}
+    r_ids = {}
+    for f in F.fns:
+        if f.impl and last_seg(f.impl.get('trait')) == 'TryFrom' and f.self_adt and last_seg(f.self_adt) == 'FilterType':
+            prov = Prov(f)
+            for sb in switches_on(f, prov, lambda k, p: k == 'value'):
+                for v, region in arm_regions(f, sb).items():
+                    if v != 'else':
+                        vs = region_variants(f, region, 'FilterType')
+                        if vs:
+                            r_ids[v] = vs[0]
+    rt = {}
+    for f in methods_of(F, 'XZReader'):
+        prov = Prov(f)
+        for sb in switches_on(f, prov, lambda k, p: k == 'discr' and p['ty'].endswith('FilterType')):
+            tab = {}
+            for v, region in arm_regions(f, sb).items():
+                if v == 'else':
+                    continue
+                cs = [c for c in region_calls(f, region) if '::new' in c and any(x in c for x in ('BCJ', 'Delta', 'LZMA2'))]
+                if cs:
+                    nm = cs[0].split('::')
+                    tab[ft_by_discr.get(v, v)] = '%s::%s' % (nm[-2].replace('Reader', ''), nm[-1])
+            if len(tab) > len(rt):
+                rt = tab
+    for fid, ctor in sorted(SPEC['filter_ids'].items()):
+        key = 'filter-id-spec:0x%02X' % fid
+        var = r_ids.get(fid)
+        got = rt.get(var)
+        if got == ctor:
+            ctx.ok(key, '-', 'id 0x%02X -> %s -> %s as specified' % (fid, var, got))
+        else:
+            ctx.violation(key, '-', 'filter id 0x%02X is decoded with %s (via %s); the specification assigns it to %s' % (fid, got, var, ctor))
+    extra = set(r_ids) - set(SPEC['filter_ids'])
+    if extra:
+        ctx.violation('filter-id-spec:extra', '-', 'reader accepts filter ids %s that the specification does not define' % sorted(extra))
+    # check ids and sizes
+    ct = variant_table(F, 'CheckType')
+    wsz = {}
+    for f in methods_of(F, 'XZWriter'):
+        if f.d.get('output') != 'u64':
+            continue
+        prov = Prov(f)
+        for sb in switches_on(f, prov, lambda k, p: k == 'discr' and p['ty'].endswith('CheckType')):
+            for v, region in arm_regions(f, sb).items():
+                if v == 'else':
+                    continue
+                for b in region:
+                    for s in f.blocks[b]['stmts']:
+                        if s['k'] == 'assign' and s['lhs']['l'] == 0 and s['rv']['r'] == 'use' and s['rv']['o'].get('k'):
+                            wsz[v] = s['rv']['o']['k']['v']
+    for cid, size in sorted(SPEC['check_sizes'].items()):
+        key = 'check-spec:0x%02X' % cid
+        if wsz.get(cid) == size and any(d == cid for n, (i, d) in (ct or {}).items()):
+            ctx.ok(key, '-', 'check id 0x%02X has size %d' % (cid, size))
+        else:
+            ctx.violation(key, '-', 'check id 0x%02X: crate uses size %s, specification says %d' % (cid, wsz.get(cid), size))
+    # LZMA2 limits: constants in the chunk-filling loop condition
+    mlm = [v['val'] for p, v in F.consts.items() if p.endswith('MATCH_LEN_MAX')]
+    lim = []
+    for f in methods_of(F, 'LZMAEncoder'):
+        if not f.loops():
+            continue
+        prov = Prov(f)
+        consts = []
+        for sb in f.reachable:
+            t = f.blocks[sb]['term']
+            if t['k'] != 'switch':
+                continue
+            cond = prov.operand(t['discr'], 0, '%d:T' % sb)
+            nc = norm_cmp(cond, True) if cond[0] in ('bin', 'un') else None
+            if nc and nc[0] in ('Le', 'Lt') and nc[2][0] == 'const' and isinstance(nc[2][2], int) and nc[2][2] > 1000:
+                consts.append((nc[2][2], nc[0], expr_str(nc[1])[:50], sb))
+        if len(consts) >= 2 and any('pending' in c[2] for c in consts):
+            lim = (f, consts)
+    if not lim or not mlm:
+        ctx.violation('lzma2-limits', '-', 'cannot locate the LZMA2 chunk-filling loop limits (fail closed)')
+    else:
+        f, consts = lim
+        for cval, op, what, sb in consts:
+            isc = 'pending' in what
+            bound = SPEC['lzma2_compressed_max'] if isc else SPEC['lzma2_uncompressed_max']
+            slack = 26 if isc else mlm[0]
+            key = 'lzma2-limit:%s' % ('compressed' if isc else 'uncompressed')
+            eff = cval + (0 if op == 'Le' else -1)
+            if eff + slack <= bound:
+                ctx.ok(key, f.loc(sb), 'loop continues while %s %s %d; + one symbol (%d) <= %d' % (what, op, cval, slack, bound))
+            else:
+                ctx.violation(key, f.loc(sb), 'chunk limit %d + largest symbol %d exceeds the LZMA2 maximum %d: a chunk size field would '
+                              'overflow its header' % (cval, slack, bound))
+    # .lzma props formula
+    for f in F.fns:
+        if f.name == 'get_props' and f.self_adt and last_seg(f.self_adt) == 'LZMAOptions':
+            prov = Prov(f)
+            ok = False
+            for (bi, si, k, node) in f.whole_defs(0):
+                if k == 'assign':
+                    from lzlint.intervals import _strip
+                    e = _strip(prov.rvalue(node['rv'], 0, '%d:%d' % (bi, si)))
+                    s = expr_str(e)
+                    if s.replace(' ', '') in ('(((self.pbMul5)Addself.lp)Mul9)Addself.lc)'.replace(' ', ''),
+                                             '((((self.pbMul5)Addself.lp)Mul9)Addself.lc)'):
+                        ok = True
+                    shape = s
+            if ok:
+                ctx.ok('lzma-props-formula', f.loc(0), 'props = (pb*5 + lp)*9 + lc')
+            else:
+                ctx.violation('lzma-props-formula', f.loc(0), 'properties byte is %s, LZMA_Alone/LZMA2 define (pb*5 + lp)*9 + lc' % shape)
